@@ -74,10 +74,30 @@ def _directly_asserted_variables(test_case: tc.TestCase) -> set[str]:
                 continue
             if isinstance(assertion, ReferenceAssertion):
                 source = assertion.source
-                # In the libcst representation the source is the variable name.
+                # In the libcst representation the source is the variable name, possibly
+                # followed by an attribute path (``var_0.field``): the variable is its root.
                 if isinstance(source, str):
-                    protected.add(source)
+                    protected.add(source.split(".", 1)[0])
+        if _carries_value_assertion(statement):
+            # The statement itself is kept (see the minimization visitors), so everything
+            # it reads has to stay as well.
+            protected.update(statement.used_variables())
     return protected
+
+
+def _carries_value_assertion(statement: tc.Statement) -> bool:
+    """Whether a statement carries an oracle on some value (on its own variable or not).
+
+    Such a statement must not be minimized away, even if it binds no variable: the
+    assertions attached to it would silently disappear with it.
+
+    Args:
+        statement: The statement to inspect.
+
+    Returns:
+        True if a non-exception assertion is attached to the statement.
+    """
+    return any(not isinstance(assertion, ExceptionAssertion) for assertion in statement.assertions)
 
 
 def _add_backward_dependencies(test_case: tc.TestCase, protected: set[str]) -> None:
@@ -282,7 +302,7 @@ class ForwardIterativeMinimizationVisitor(IterativeMinimizationVisitor):
             i = 0
             while i < test_case.size():
                 statement = test_case.get_statement(i)
-                if statement.bound_variable in protected:
+                if statement.bound_variable in protected or _carries_value_assertion(statement):
                     i += 1
                     continue
                 test_clone = test_case.clone()
@@ -315,7 +335,7 @@ class BackwardIterativeMinimizationVisitor(IterativeMinimizationVisitor):
             i = test_case.size() - 1
             while i >= 0:
                 statement = test_case.get_statement(i)
-                if statement.bound_variable in protected:
+                if statement.bound_variable in protected or _carries_value_assertion(statement):
                     i -= 1
                     continue
                 test_clone = test_case.clone()
@@ -494,7 +514,8 @@ class CombinedMinimizationVisitor(cv.ChromosomeVisitor):
                 protected = get_assertion_protected_variables(test_case)
                 i = 0
                 while i < test_case.size():
-                    if test_case.get_statement(i).bound_variable in protected:
+                    candidate = test_case.get_statement(i)
+                    if candidate.bound_variable in protected or _carries_value_assertion(candidate):
                         # Like the iterative visitors: never remove an asserted statement.
                         i += 1
                         continue
